@@ -119,7 +119,8 @@ pub fn run_pipelined(bin: &Path, opts: &SpawnOpts, lines: &[String], end: End, c
             out
         }
     };
-    let pause = matches!(chunking, Chunking::Pieces(_));
+    // pausing between pieces is affordable for scripts of ordinary size only
+    let pause = matches!(chunking, Chunking::Pieces(_)) && pieces.len() < 20_000;
     let t_write = Instant::now();
     // a helper thread writes, so that a script larger than the pipe buffer cannot block the reader
     let writer = eng.write_async(pieces, end == End::Eof, if pause { Some(Duration::from_micros(150)) } else { None });
@@ -127,13 +128,15 @@ pub fn run_pipelined(bin: &Path, opts: &SpawnOpts, lines: &[String], end: End, c
         eng.note_sent("<EOF>");
     }
     let plan = total_plan_ms(&all);
-    let budget = Duration::from_millis(plan) + WATCHDOG + Duration::from_millis(if pause { all.iter().map(|l| l.len() as u64).sum::<u64>() / 4 } else { 0 });
+    let budget = Duration::from_millis(plan) + WATCHDOG + Duration::from_millis(if pause { all.iter().map(|l| l.len() as u64).sum::<u64>() / 4 } else { all.iter().map(|l| l.len() as u64).sum::<u64>() / 200 });
     let deadline = t_write + budget;
     let count = |eng: &Engine| eng.transcript.iter().filter(|e| e.dir == Dir::Out && (e.line.starts_with("bestmove") || e.line == "readyok")).count();
     let mut t_last = Instant::now();
     loop {
         eng.drain(Duration::from_millis(2));
-        if count(&eng) >= expected.len() {
+        // complete = every expected answer has arrived AND the whole script has been handed to
+        // the pipe (lines after the last go/isready, e.g. the closing quit, are still input)
+        if count(&eng) >= expected.len() && eng.written.load(std::sync::atomic::Ordering::Relaxed) {
             t_last = Instant::now();
             break;
         }
